@@ -1,8 +1,9 @@
 #!/usr/bin/env python3
 """
 Canonical-text tie for the parts of /repo that the Lean model mirrors by hand and that neither
-translator (rs2lean.py, rs2lean2.py) covers yet: gate application / definition / `if` statements and the
-session entry points of qasm/int/mod.rs, qasm/int/macros.rs, qasm/int/parse.rs, Sym::new / init.
+translator (rs2lean.py, rs2lean2.py) covers: qasm/int/macros.rs (Macro::new, process, process_nested), qasm/int/parse.rs (the meval context,
+eval_extended), the field lists of Int / Macro / Sym, Sym::new / init and its getters. (int/mod.rs itself is translated
+by rs2lean2.py; its calls into these files go to the model functions named here.)
 
 For every listed item the current source text is normalised (comments and white space removed, local
 variable names replaced by v1, v2, .. in order of first occurrence, so that re-formatting, comments and
@@ -27,14 +28,6 @@ DB = os.path.join(ROOT, "tools", "canon.json")
 # (lean name, file, kind, rust name): kind fn = `fn name` .. matching brace; struct = `struct name` .. brace;
 # block = a `name! {` .. brace macro invocation
 ITEMS = [
-    ("int_new", "qasm/int/mod.rs", "fn", "new"),
-    ("int_add_ast", "qasm/int/mod.rs", "fn", "add_ast"),
-    ("int_ast_changes", "qasm/int/mod.rs", "fn", "ast_changes"),
-    ("int_process_nodes", "qasm/int/mod.rs", "fn", "process_nodes"),
-    ("int_process_node", "qasm/int/mod.rs", "fn", "process_node"),
-    ("int_process_apply_gate", "qasm/int/mod.rs", "fn", "process_apply_gate"),
-    ("int_process_gate", "qasm/int/mod.rs", "fn", "process_gate"),
-    ("int_process_if", "qasm/int/mod.rs", "fn", "process_if"),
     ("int_struct", "qasm/int/mod.rs", "struct", "Int"),
     ("macro_struct", "qasm/int/macros.rs", "struct", "Macro"),
     ("macro_argument_name", "qasm/int/macros.rs", "fn", "argument_name"),
